@@ -1110,7 +1110,7 @@ func Prop() *core.Prop {
 		},
 		Cases: func(tier string) int {
 			if tier == "thorough" {
-				return 1000000
+				return 8000000
 			}
 			return 20000
 		},
